@@ -175,6 +175,17 @@ HyperedgeTreeNode *MinimumTerminalSpanningTree::addNode(VertInf *vertex,
         // Join this node to the previous node.
         new HyperedgeTreeEdge(prevNode, node, nullptr);
     }
+#ifdef ADAPTAGRAMS_VERIF
+    if (verif_hyper_log)
+    {
+        // H2 MTNODE <node> <vertex> <x> <y> <created> <junction or -1> <prev>
+        fprintf(verif_hyper_log, "H2 MTNODE %p %p %.17g %.17g %d %ld %p\n",
+                (void *) node, (void *) vertex, vertex->point.x,
+                vertex->point.y, (int) (match == nodes.end()),
+                (node->junction) ? (long) node->junction->id() : -1L,
+                (void *) prevNode);
+    }
+#endif
 
     return node;
 }
@@ -233,6 +244,13 @@ void MinimumTerminalSpanningTree::buildHyperedgeTreeToRoot(VertInf *currVert,
             // vertex representing the endpoint of the connector so we can
             // later use this to set the correct ConnEnd for the connector.
             currentNode->finalVertex = currVert;
+#ifdef ADAPTAGRAMS_VERIF
+            if (verif_hyper_log)
+            {
+                fprintf(verif_hyper_log, "H2 MTTERM %p %p\n",
+                        (void *) currentNode, (void *) currVert);
+            }
+#endif
         }
 
         if (currVert->id.isDummyPinHelper())
@@ -1001,6 +1019,14 @@ void MinimumTerminalSpanningTree::commitToBridgingEdge(EdgeInf *e)
 
     VertInf *vert1 = ends.first;
     VertInf *vert2 = ends.second;
+#ifdef ADAPTAGRAMS_VERIF
+    if (verif_hyper_log)
+    {
+        // H2 COMMIT <kept root> <absorbed root> <vertex 1> <vertex 2>
+        fprintf(verif_hyper_log, "H2 COMMIT %p %p %p %p\n", (void *) newRoot,
+                (void *) oldRoot, (void *) vert1, (void *) vert2);
+    }
+#endif
     if (hyperedgeTreeJunctions)
     {
         node1 = addNode(vert1, nullptr);
@@ -1047,6 +1073,20 @@ void MinimumTerminalSpanningTree::commitToBridgingEdge(EdgeInf *e)
     COLA_ASSERT(oldTreeRootPtr2);
     *oldTreeRootPtr1 = nullptr;
     *oldTreeRootPtr2 = nullptr;
+#ifdef ADAPTAGRAMS_VERIF
+    if (verif_hyper_log)
+    {
+        // H2 COMMIT-END <terminal sets left> (<root of a remaining set>)*
+        fprintf(verif_hyper_log, "H2 COMMIT-END %u",
+                (unsigned) origTerminals.size());
+        for (std::set<VertInf *>::iterator curr = origTerminals.begin();
+                curr != origTerminals.end(); ++curr)
+        {
+            fprintf(verif_hyper_log, " %p", (void *) *curr);
+        }
+        fprintf(verif_hyper_log, "\n");
+    }
+#endif
 
     // We have found the full hyperedge path when we have joined all the
     // terminal sets into one.
